@@ -97,10 +97,15 @@ class WalkCase:
             if it["tree"] is not None:
                 materialize(root, it["tree"])
                 reorder(root, it["tree"])
+                if it.get("late"):
+                    os.rename(root, root + ".staged")
         self.write_config()
 
     def hook_cmd(self, tag, i, h):
         cmd = "echo %s%d >> %s" % (tag, i, self.log)
+        if tag == "B" and self.items[i].get("late"):
+            # the item's path is prepared by its own before hook (a snapshot directory, a mount, a re-pointed link): it appears only now
+            cmd += "; mv %s.staged %s" % (self.roots[i], self.roots[i])
         if h is False:
             # a failing hook: non-zero exit status, or death from a signal (no exit status at all)
             style = (i * 2 + (0 if tag == "B" else 1) + getattr(self, "fail_seed", 0)) % 4
